@@ -51,28 +51,9 @@ def run(ctx):
     ctx.floor("C06 functions scanned for byte order", len(efns), 350)
     endian.check(ctx, efns)
     # ---- (1) switches with error defaults
-    for fname, file_, what, on, allowed in (
-            ("decompress_page", PR, "codec", "codec",
-             {"CARQUET_COMPRESSION_UNCOMPRESSED", "CARQUET_COMPRESSION_SNAPPY", "CARQUET_COMPRESSION_GZIP",
-              "CARQUET_COMPRESSION_LZ4", "CARQUET_COMPRESSION_LZ4_RAW", "CARQUET_COMPRESSION_ZSTD"}),
-            ("carquet_read_data_page_v1", PR, "value encoding", "encoding",
-             {"CARQUET_ENCODING_PLAIN", "CARQUET_ENCODING_PLAIN_DICTIONARY", "CARQUET_ENCODING_RLE_DICTIONARY"}),
-            ("carquet_decode_plain", PL, "physical type", "type", None)):
-        fn = P.fn(fname, file_)
-        sws = [s for s in find_switches(fn) if on in src(s.c[-2]) and "reader->type" not in src(s.c[-2])]
-        if not sws:
-            raise AnalysisBroken("%s: switch over the %s not found" % (fname, what))
-        tab, order = switch_table(sws[0])
-        d = tab.get("default")
-        okd = d is not None and any(r.k == "ReturnStmt" and r.c and r.c[0] is not None and r.c[0].cv not in (0, None)
-                                    for s in d for r in s.walk())
-        ctx.ob("R5.reject", "default-rejects|%s:%s" % (file_, fname), P.where(sws[0]),
-               "an unknown %s is rejected by %s" % (what, fname), okd)
-        if allowed is not None:
-            labs = set(l for l in tab if l != "default")
-            ctx.ob("R5.reject", "arms|%s:%s" % (file_, fname), P.where(sws[0]),
-                   "%s has arms exactly for the implemented %ss" % (fname, what), labs == allowed,
-                   "extra %s missing %s" % (sorted(labs - allowed), sorted(allowed - labs)))
+    # the codec table of decompress_page (every enum value and a value outside it) is decided by
+    # execution in codecrepr.reader above, the physical-type table of carquet_decode_plain here:
+    codecrepr.plain_tables(ctx)
     # page types admitted vs header member consumed
     for fname, want_type, member in (("load_next_page_mmap", "CARQUET_PAGE_DATA", "data_page_header"),
                                      ("load_next_page_fread", "CARQUET_PAGE_DATA", "data_page_header"),
@@ -152,25 +133,80 @@ def run(ctx):
         ctx.ob("R5.spec", "level-width|%s:%s" % (file_, fname), P.where(fn.body),
                "bit_width_for_max(m) = number of bits of m for every level 0..32767 (exhaustive)", bad is None,
                "m=%s gives %s, needs %s" % bad if bad else "32768 values")
+    # the v1 data-page reader is executed abstractly per configuration (level decoder, index decoder,
+    # PLAIN dispatcher, gathers and length reads hooked): which decoder gets which bytes with which width
+    from ..rules import pageread, sem
     dp = P.fn("carquet_read_data_page_v1", PR)
-    for call in dp.calls("decode_levels_rle"):
-        t = Canon(dp)(call.args()[2])
-        lev = [s for s in subtrees(t) if s[0] == "member" and s[2] in ("max_rep_level", "max_def_level")]
-        okw = t[0] == "call" and t[1] == ("func", "bit_width_for_max") and len(lev) == 1
-        # the level array matches the level kind
-        dest = src(call.args()[4])
-        kind = lev[0][2] if lev else "?"
-        okk = ("rep" in dest) == ("rep" in kind)
-        ctx.ob("R6.provenance", "level-width-source|%s:%s|%s" % (PR, dp.name, kind), P.where(call),
-               "levels are decoded with bit_width_for_max(%s) into the matching level array" % kind, okw and okk, show(t))
-    ctx.floor("C06 level decode calls", len(dp.calls("decode_levels_rle")), 2)
-    idx = dp.calls("carquet_rle_decode_all")
-    okx = False
-    if len(idx) == 1:
-        t = Canon(dp)(idx[0].args()[2])
-        okx = t[0] == "index" and t[2] == ("int", 0)
-    ctx.ob("R6.provenance", "index-width-source|%s:%s" % (PR, dp.name), P.where(dp.body),
-           "dictionary indices are decoded with the bit width stored in the page's first byte", okx)
+    encs = P.enum("carquet_encoding")
+    PLAINV = encs["CARQUET_ENCODING_PLAIN"]
+    DICTS = {encs["CARQUET_ENCODING_PLAIN_DICTIONARY"], encs["CARQUET_ENCODING_RLE_DICTIONARY"]}
+    verd = {"level-width-source": None, "level-layout": None, "index-width-source": None, "encoding-table": None,
+            "encoding-rejects": None, "dictionary-required": None}
+    ntr = 0
+
+    def fail(k, msg):
+        if verd[k] is None:
+            verd[k] = msg
+    try:
+        for mr in (0, 1, 2, 3, 7):
+            for md in (0, 1, 2, 5):
+                for wr, wd in ((True, True), (False, True), (True, False)):
+                    ret, ev, nread = pageread.trace(P, max_rep=mr, max_def=md, want_rep=wr, want_def=wd, encoding=PLAINV)
+                    ntr += 1
+                    sc = "max_rep=%d max_def=%d rep_levels=%s def_levels=%s" % (mr, md, wr, wd)
+                    lv = [e for e in ev if e[0] == "levels"]
+                    want = []
+                    offp = 0
+                    if mr > 0 and wr:
+                        want.append(("levels", ("page", offp + 4), pageread.REP_SIZE, mr.bit_length(), ("repl", 0), 0))
+                        offp += 4 + pageread.REP_SIZE
+                    if md > 0 and wd:
+                        want.append(("levels", ("page", offp + 4), pageread.DEF_SIZE, md.bit_length(), ("defl", 0), 0))
+                        offp += 4 + pageread.DEF_SIZE
+                    if [(e[3], e[4]) for e in lv] != [(e[3], e[4]) for e in want]:
+                        fail("level-width-source", "%s: level decodes (width, array) %s, expected %s" % (
+                            sc, [(e[3], e[4][0]) for e in lv], [(e[3], e[4][0]) for e in want]))
+                    elif lv != want:
+                        fail("level-layout", "%s: level blocks %s, expected %s" % (sc, lv, want))
+                    pl = [e for e in ev if e[0] == "plain"]
+                    if ret != 0 or len(pl) != 1 or pl[0][1] != ("page", offp) or pl[0][2] != pageread.PAGE_SIZE - offp:
+                        fail("level-layout", "%s: values decoded from %s, expected offset %d with %d bytes left (returns %s)" % (
+                            sc, pl, offp, pageread.PAGE_SIZE - offp, ret))
+        for name, v in sorted(list(encs.items()) + [("<unknown 99>", 99), ("<unknown -1>", -1)], key=lambda kv: kv[1]):
+            for hd in (True, False):
+                ret, ev, nread = pageread.trace(P, max_def=1, encoding=v, has_dict=hd)
+                ntr += 1
+                dec = [e[0] for e in ev if e[0] in ("plain", "indices", "gather")]
+                if v == PLAINV:
+                    if dec != ["plain"] or ret != 0:
+                        fail("encoding-table", "%s: decoders %s, returns %s" % (name, dec, ret))
+                elif v in DICTS and hd:
+                    ix = [e for e in ev if e[0] == "indices"]
+                    if dec[:1] != ["indices"] or ret != 0:
+                        fail("encoding-table", "%s: decoders %s, returns %s" % (name, dec, ret))
+                    elif ix[0][3] != pageread.WIDTH_BYTE or ix[0][1] != ("page", 4 + pageread.DEF_SIZE + 1) or \
+                            ix[0][2] != pageread.PAGE_SIZE - 4 - pageread.DEF_SIZE - 1:
+                        fail("index-width-source", "%s: indices decoded as %s; the width byte is %d at offset %d" % (
+                            name, ix[0], pageread.WIDTH_BYTE, 4 + pageread.DEF_SIZE))
+                elif v in DICTS:
+                    if dec or not isinstance(ret, int) or ret == 0:
+                        fail("dictionary-required", "%s without a dictionary: decoders %s, returns %s" % (name, dec, ret))
+                else:
+                    if dec or not isinstance(ret, int) or ret == 0:
+                        fail("encoding-rejects", "%s: decoders %s, returns %s" % (name, dec, ret))
+        what = {"level-width-source": "levels are decoded with the bit width of the column's max_rep/max_def level into the matching level array",
+                "level-layout": "each level block is its 4-byte length prefix plus that many bytes, repetition before definition, values after them",
+                "index-width-source": "dictionary indices are decoded with the bit width stored in the page's first value byte, from the byte after it",
+                "encoding-table": "PLAIN pages go to the PLAIN dispatcher, dictionary-encoded pages to the index decoder",
+                "encoding-rejects": "every other value encoding (and values outside the enum) is refused without decoding",
+                "dictionary-required": "a dictionary-encoded page without a loaded dictionary is refused"}
+        for k_, msg in verd.items():
+            ctx.ob("R6.provenance" if "source" in k_ or "layout" in k_ else "R5.reject", "%s|%s:%s" % (k_, PR, dp.name), P.where(dp.body),
+                   what[k_] + " (%d configurations, abstract execution)" % ntr, msg is None, msg or "")
+    except (sem.Inconclusive, KeyError) as ex:
+        ctx.inconclusive("R6.provenance", "page-read-trace|%s:%s" % (PR, dp.name), P.where(dp.body),
+                         "abstract execution of the data-page reader", "%s: %s" % (type(ex).__name__, ex))
+    ctx.floor("C06 data-page reader configurations", ntr, 60)
     # definition levels of non-nullable pages default to max (all present)
     # ---- (4)
     for en, (spec, prefix) in C05.ENUM_MAP.items():
